@@ -34,6 +34,18 @@ CHECKS = {
          "Same seed in both runs so nonces and fates coincide; any divergence of the sender's wire output or of its RTT, RTO, rate, loss, timer, queue and window state is a violation."),
  "C19": ("seeded DST under a layout-checking global allocator with per-endpoint live-byte accounting; teardown oracle", A,
          "Every deallocation's Layout is compared with the allocation's (header in front of each block); after dropping every endpoint of a run the bytes they allocated must all have been released."),
+ "C07": ("seeded DST of real Clients and a real Server over the simulated socket: handshake frame loss/dup/reorder, forged and replayed handshake frames, incompatible configurations, restarts; oracle = Connect events justified by the nonces seen on the wire", B,
+         "The harness reads every datagram, so it knows each side's genuine nonce: a server Connect requires a consumed ACK carrying a nonce the server sent to that address, a client Connect a consumed SYN-ACK echoing its own; the two half connections created by one handshake must agree on sequence numbers and negotiated limits; refused configurations get the matching error and never connect; forged or stale handshake frames leave established connections untouched (in-order exactly-once delivery and the event automaton keep holding)."),
+ "C08": ("seeded DST of random API-call interleavings on real Client/Server with faults on every frame type and racing timers; oracle = per-connection event automaton", B,
+         "Idle -> Connected -> Ended automaton per (endpoint, peer address) fed with every event step() returns: Connect only from Idle/Ended, Receive/Disconnect only while Connected, at most one terminal event, nothing afterwards."),
+ "C09": ("seeded DST of disconnect()/disconnect_now() from either side with queued data, frame faults and blackouts after the call; oracles = flush guarantee at the peer's Disconnect and bounded termination of both ends", B,
+         "If the peer sees Disconnect, every Reliable packet submitted before disconnect() has been delivered to it; both endpoints reach a terminal event within the 22 s retry budget (the peer at the latest by its own silence timer) counted from the first Disconnect frame on the wire."),
+ "C10": ("seeded DST with skewed and jumping virtual clocks, lost handshake legs swept by run index, blackouts and idle hours; oracle mirrors the definition of silence per endpoint clock", B,
+         "Exact in the endpoint's own millisecond timeline: Error(Timeout) on an established connection only if no data/ack/sync frame was read for active_timeout_ms (establishment counts as heard), and reported by the first step after that much silence; idle keepalive connections survive simulated hours; unanswered handshakes and disconnects show exactly 1 + 10 transmissions at least 2 s apart and time out no earlier than 22 s after the first."),
+ "C17": ("seeded DST with the limit pair swept by run index and many clients arriving in bursts; oracle = counters of established and tracked connections after every step", B,
+         "Established connections (server Connect until terminal event, drop() or its own Disconnect request) never exceed max_active_connections, tracked entries never exceed max_total_connections; on a loss-free link non-admitted clients see ServerFull and a late client is admitted once capacity has returned."),
+ "C18": ("seeded DST with raw spoofable sockets that never return a nonce; oracle = per-address byte accounting after every server transmission", B,
+         "For every unverified address the bytes the server has sent stay below the bytes received from it, with and without 28-byte UDP/IP headers; addresses that only sent undersized requests get nothing."),
 }
 
 NOT_APPLICABLE = {
